@@ -13,10 +13,10 @@ META = {
              'single captures); (b) every node of REAL windows matched against its own pure AST and against one-leaf mutations; '
              '(d) search(p) vs [n for n in walk(True) if n.match(p)] for a pattern battery; (a) same pattern on LAYOUT variants, '
              'on unparse-reparse and on the pure AST; (c) every match evaluated twice, interleaved, shared empties asserted empty. '
-             'A cell is a distinct (component, pattern shape) or (component, node class, leaf kind).'),
+             'A cell is a distinct (component, pattern shape) or (component, node class, leaf kind). Quantifier items also include anonymous sub-patterns holding an INNER tag plus a static tag on the quantifier (inner tag == capture of the last kept iteration as in re, static tag present); the search battery includes every non-leaf AST class (unaryop, operator, boolop, cmpop, expr_context, pattern, ...), AST instances (Load(), Add(), Name(..)) and MNOT/MAND/MOR/MTYPES combinations of them.'),
     'budget': {'quick': 45, 'thorough': 900},
-    'floors': {'quick': {'q_matches': 200000, 'self_match': 1500, 'leaf_mut': 800, 'search_cmp': 300, 'layout_cmp': 300},
-               'thorough': {'q_matches': 3000000, 'self_match': 20000, 'leaf_mut': 10000, 'search_cmp': 4000, 'layout_cmp': 4000}},
+    'floors': {'quick': {'q_inner_and_static_tags_compared': 80000, 'q_matches': 200000, 'self_match': 1500, 'leaf_mut': 800, 'search_cmp': 300, 'layout_cmp': 300},
+               'thorough': {'q_inner_and_static_tags_compared': 500000, 'q_matches': 3000000, 'self_match': 20000, 'leaf_mut': 10000, 'search_cmp': 4000, 'layout_cmp': 4000}},
     'exhaustive': {'quick': False, 'thorough': False},
     'assumptions': ['Python re module is the reference for quantifier semantics', 'nested quantifiers inside a quantifier subsequence are excluded (documented as not mixing with the parent)',
                     'virtual-field patterns are not compared on pure AST targets (documented)'],
